@@ -191,6 +191,7 @@ def gen_C03(w, tier):
             sc.do("g.p2s %d %s" % (ps.gid, hx(pw)))
         sc.do("e.base %d %d" % (w.eid(), ps.gid))
         sc.do("g.sizes %d" % ps.gid)
+        sc.do("p.mns %d" % ps.pid)
     out.append(sc)
     return out
 
@@ -232,7 +233,10 @@ def gen_C02(w, tier):
     n = [0]
 
     def add(name, ps, sym, pw, ids, x, y, mismatch, **kw):
-        sc = exchange(w, "C02/%s/%d" % (name, n[0]), ps, sym, pw, ids, x, y, tags=("mismatch:" + mismatch, "set:" + ("toy" if ps.toy else ps.name)), **kw)
+        if "cyclesA" not in kw and not ps.toy and r.random() < 0.5:
+            kw["cyclesA"], kw["cyclesB"] = r.choice([(1, 0), (0, 1), (1, 1), (2, 0)])
+        kw.setdefault("mode", EXACT)
+        sc = exchange(w, "C02/%s/%d" % (name, n[0]), ps, sym, pw, ids, x, y, tags=("mismatch:" + mismatch, "set:" + ("toy" if ps.toy else ps.name)) + (("restored",) if kw.get("cyclesA") or kw.get("cyclesB") else ()), **kw)
         sc.meta.update(mismatch=mismatch, q=ps.q, w=pwscalar(w, ps, pw))
         sc.pred = pred_no_agreement
         out.append(sc)
@@ -256,6 +260,11 @@ def gen_C02(w, tier):
                 if ids[0] != ids[1]:
                     add(ps.name, ps, sym, pw, ids, x, y, "ids-swapped", idsB=(ids[1], ids[0]))
                 add(ps.name, ps, False, pw, (b"ab", b"c"), x, y, "ids-concat", idsB=(b"a", b"bc"))
+                if ids[0] != ids[1]:
+                    # the peer uses one identity twice; with and without a restore on either end
+                    for cyc in ((0, 0), (1, 0), (0, 1)):
+                        add(ps.name, ps, False, pw, ids, x, y, "idB-equals-idA", idsB=(ids[0], ids[0]), cyclesA=cyc[0], cyclesB=cyc[1])
+                        add(ps.name, ps, False, pw, ids, x, y, "idA-equals-idB", idsB=(ids[1], ids[1]), cyclesA=cyc[0], cyclesB=cyc[1])
     # different groups
     for a_, b_ in (("ed", "1024"), ("1024", "2048"), ("3072", "2048")):
         ps, psB = w.ps[a_], w.ps[b_]
@@ -314,6 +323,7 @@ def gen_C02(w, tier):
                   ("extend-dup", lambda m, o: m + m[1:]), ("extend-own", lambda m, o: m + o[1:]),
                   ("prepend-zero", lambda m, o: m[:1] + b"\x00" + m[1:]),
                   ("zero-body", lambda m, o: m[:1] + b"\x00" * es), ("ones-body", lambda m, o: m[:1] + b"\xff" * es)]
+        edits.append(("strip-leading-zeros", lambda m, o: m[:1] + (m[1:].lstrip(b"\x00") or b"\x00")))
         for sb in (0, 0x41, 0x42, 0x53, 0x43, 0xff):
             edits.append(("sidebyte", lambda m, o, sb=sb: bytes([sb]) + m[1:]))
         for nm, enc in specials.get(ps.name, []):
@@ -332,6 +342,10 @@ def gen_C02(w, tier):
                     add(ps.name, ps, sym, pw, (b"a", b"b"), x, y, "tamper-" + nm, tamperB=f)
                 else:
                     add(ps.name, ps, sym, pw, (b"a", b"b"), x, y, "tamper-" + nm, tamperA=f)
+        if ps.toy and ps.kind == "int" and ps.esize > 1:
+            for _ in range(60):
+                add(ps.name, ps, r.random() < 0.5, b"pw", (b"a", b"b"), w.scalar(ps, 0), w.scalar(ps, 0), "tamper-strip-leading-zeros",
+                    tamperB=lambda m, o: m[:1] + (m[1:].lstrip(b"\x00") or b"\x00"))
         # both directions altered consistently: X*||Y* style framing attacks and message swaps
         for sym in (False, True):
             x, y = w.scalar(ps, 0), w.scalar(ps, 0)
